@@ -95,8 +95,8 @@ func (Engine) Run(t *tape.Tape, o eng.Opts) *eng.Result {
 	// requests are in flight through one Static at once and advance in lock step, so that
 	// whatever it bounds per instance (open files, slots) meets more holders than it has room for.
 	stormOdds := 20
-	if world.AutoMode || sched.RaceOn {
-		stormOdds = 60
+	if world.AutoMode {
+		stormOdds = 60 // (never a function of the -race flag: plain and -race builds must draw the same run from one seed)
 	}
 	storm := sw.Intn(stormOdds) == 1
 	if storm {
